@@ -3,7 +3,9 @@ package prop
 import (
 	"encoding/json"
 	"fmt"
+	"math/rand"
 	"sort"
+	"strings"
 	"time"
 
 	"github.com/cosmos/cosmos-sdk/codec"
@@ -73,8 +75,17 @@ func (w *nftWorkload) sortedClasses() []string {
 	return ids
 }
 
+// nftLong: text at and beyond the lengths the module documents for its fields (256 bytes for a uri)
+func nftLong(rng *rand.Rand) string {
+	n := pick(rng, 255, 256, 257, 300, 1500)
+	return strings.Repeat("l", n-4) + fmt.Sprintf("%04d", rng.Intn(10000))
+}
+
 func (w *nftWorkload) field(cur string) (string, string) {
 	rng := w.run.Rng
+	if rng.Intn(14) == 0 {
+		return nftLong(rng), "change-long"
+	}
 	switch rng.Intn(4) {
 	case 0:
 		return nfttypes.DoNotModify, "keep"
@@ -160,6 +171,21 @@ func (w *nftWorkload) Next(block int) []rig.Tx {
 				w.nCls++
 			}
 			msg := &nfttypes.MsgIssueDenom{Id: id, Name: "n" + id, Schema: "s", Sender: a.Addr.String(), Symbol: "sy", MintRestricted: rng.Intn(2) == 0, UpdateRestricted: rng.Intn(2) == 0, Description: "d", Uri: "u", UriHash: "h", Data: `{"a":1}`}
+			if rng.Intn(4) == 0 {
+				// one class in four carries a long text in one of its fields
+				switch rng.Intn(5) {
+				case 0:
+					msg.Uri = nftLong(rng)
+				case 1:
+					msg.UriHash = nftLong(rng)
+				case 2:
+					msg.Description = nftLong(rng)
+				case 3:
+					msg.Name = nftLong(rng)
+				default:
+					msg.Schema = nftLong(rng)
+				}
+			}
 			out = append(out, r.Mk(a, &nftTag{Op: "issue"}, msg))
 		case 1:
 			cid := classes[rng.Intn(len(classes))]
@@ -177,6 +203,13 @@ func (w *nftWorkload) Next(block int) []rig.Tx {
 			}
 			rcpt := w.recipient()
 			msg := &nfttypes.MsgMintNFT{Id: tid, DenomId: cid, Name: pick(rng, "nm", nfttypes.DoNotModify, ""), URI: "uri", UriHash: "hash", Data: pick(rng, "", `{"x":1}`), Sender: actor.Addr.String(), Recipient: rcpt}
+			if rng.Intn(10) == 0 {
+				if rng.Intn(2) == 0 {
+					msg.URI = nftLong(rng)
+				} else {
+					msg.UriHash = nftLong(rng)
+				}
+			}
 			out = append(out, r.Mk(actor, &nftTag{Op: "mint"}, msg))
 		case 2, 3, 4:
 			// pick an existing token
